@@ -532,7 +532,7 @@ def run_c16(ctx):
     for cfg in ctx.cfgs:
         fx = fixed_cases()
         ctx.violations += judge_cases(ctx, cfg, fx)
-        n = 1500 if quick else 25000
+        n = 8000 if quick else 60000
         done = 0
         while done < n:
             k = min(5000, n - done)
@@ -545,8 +545,13 @@ def run_c16(ctx):
         # spot-check family in float_roundtrip + arbitrary_precision (no float exclusion applies there): F20 regression
         res = engine.build_harness(['frap'])
         if res.get('frap', (False, ''))[0]:
-            ctx.violations += judge_cases(ctx, 'frap', frap_cases())
-            ctx.violations += judge_cases(ctx, 'frap', gen_cases(ctx, 'frap', 1500))
+            vs = judge_cases(ctx, 'frap', frap_cases()) + judge_cases(ctx, 'frap', gen_cases(ctx, 'frap', 1500))
+            # F12 / F19 are reported under cfg 'ap' (same code, same root cause): here only everything else counts
+            for x in vs:
+                if x['what'] in ('neg-zero-integer-via-value', 'number-respelled-via-value'):
+                    ctx.count('frap:known-class:' + x['what'])
+                else:
+                    ctx.violations.append(x)
         else:
             log('frap harness did not build: spot-check family skipped')
 
